@@ -250,8 +250,20 @@ func (h *SH) SubSlow(ctx context.Context, tok int, n int) (<-chan int, error) {
 	return out, nil
 }
 
+// CallBackBig makes a reverse call whose request carries `size` bytes, and returns when that call returns.
+func (h *SH) CallBackBig(ctx context.Context, tok int, size int) (int, error) {
+	h.C.enter(ctx, "CallBackBig", tok)
+	defer h.C.exit(tok, "reverse-call-returned")
+	rc, ok := jsonrpc.ExtractReverseClient[Rev](ctx)
+	if !ok {
+		return 0, fmt.Errorf("no reverse client")
+	}
+	return rc.Big(context.Background(), strings.Repeat("r", size))
+}
+
 // Rev is the client-side (reverse) API.
 type Rev struct {
+	Big     func(context.Context, string) (int, error)
 	Ident   func(context.Context, int) (int, error)
 	Aliased func(context.Context, int) (int, error) `rpc_method:"rev.alias"`
 }
